@@ -33,13 +33,19 @@ LEVEL_TEXT = ("Props/C10.lean (complete, release mode): parseNumber_total / pars
               "FAULT (get_unchecked(..b_digits), step_unchecked, peek_u64, loop fuel) and never PANIC (unreachable!(), "
               "fraction_digits.unwrap(): excluded by a counting argument); phases_preserve_invariant; foldExponent_lt and "
               "exponent_within_i64 (explicit_exponent < 0x10000000*radix+radix, |exponent| < 2^63 for inputs < 2^59 bytes); "
-              "parseInt_total for the 12 integer types (from C04). Props/C10Debug.lean (debug-assertion build, partial): the unrestricted "
-              "statement is FALSE (not_parse_total_debug); no panic is proved for three classes - no separator byte "
-              "(ValidContiguous), integer+fraction iterators contiguous (ValidIntFracContiguous), integer/fraction components noskip "
-              "or I+L+T+C (ValidIltc) - with decided witnesses for the excluded classes: a component with flags I+T+C without L "
-              "(sep_itc, RUST/SWIFT literals: '1._1234567890123456789'), and a separator equal up to ASCII case to the exponent "
-              "character / base prefix / base suffix; the 12 remaining separator predicates are kept as "
-              "def parseNumber_no_panic_debug_full.")
+              "parseInt_total for the 12 integer types (from C04). Props/C10Debug.lean (debug-assertion build): the unrestricted "
+              "statement is FALSE (not_parse_total_debug), with decided witnesses for two excluded classes: a component with flags I+T+C "
+              "without L whose stored slice starts with a separator (sep_itc, RUST/SWIFT literals: '1._1234567890123456789'), and a "
+              "separator equal up to ASCII case to the exponent character / base prefix / base suffix. Outside these classes the full "
+              "statement is PROVED for the entry points (parseNumber_no_panic_debug_full_proved / parseFloatSyntax_no_panic_debug_noitc, "
+              "class ValidNoItc = formatError none, check_radix, options punctuation, radix->power-of-two, NoCaseClash, RescanSafe): "
+              "integer and fraction component with ANY separator predicate except I+T+C (I+T+C on the integer allowed without base "
+              "prefix), exponent / special arbitrary, every input, debug = true: never panic, never fault. Key steps: debug build = "
+              "release build on parse_digits / skip_zeros (they never step over the separator), first pass and re-scan of the stored "
+              "slice take the same skip decisions (rescan_sim2, also when the first pass stopped on a refused separator), so every byte "
+              "parse_u64_digits sees is a digit. For parse_number started in an arbitrary state (not reachable from the API; false for "
+              "the 12 neighbour-dependent predicates: witness_parseNumber_midbuffer) the proved classes are no separator byte "
+              "(ValidContiguous), integer+fraction iterators contiguous (ValidIntFracContiguous), noskip or I+L+T+C (ValidIltc).")
 LEVEL_NOTE = ("Trusted: Lean kernel; rustc; that the models mirror the Rust control flow (correspondence only: C12 stream 871k ops + this "
               "property's arbitrary-byte streams, release and dbg profiles). Actual over-reads are only observable through the guard "
               "page (one byte past the end faults; reads before the start are not caught). The integer parser with the `format` feature "
